@@ -2023,7 +2023,53 @@ func ruleDefaultFormat(w *World, r *Report, pfx string) {
 		}
 		r.Check(bad == "", rule, "default format in "+fnShort(fn), w.pos(fn.Pos()), "default installed iff the caller's format is empty", bad)
 	}
-	r.Floor(rule, 3, "counters, percentage and speed constructors")
+	// the same decision made by a helper: `func orDefault(format, def string) string`
+	for _, fn := range w.ModFns {
+		if fn.Pkg != w.Decor || fn.Synthetic != "" || fn.Signature.Results().Len() != 1 {
+			continue
+		}
+		if b, ok := fn.Signature.Results().At(0).Type().Underlying().(*types.Basic); !ok || b.Kind() != types.String {
+			continue
+		}
+		var par *ssa.Parameter
+		for _, b := range fn.Blocks {
+			for _, in := range b.Instrs {
+				bin, ok := in.(*ssa.BinOp)
+				if !ok || (bin.Op != token.EQL && bin.Op != token.NEQ) {
+					continue
+				}
+				for _, pr := range [][2]ssa.Value{{bin.X, bin.Y}, {bin.Y, bin.X}} {
+					if q, ok := pr[0].(*ssa.Parameter); ok && isEmpty(Val{V: pr[1]}) {
+						par = q
+					}
+				}
+			}
+		}
+		if par == nil {
+			continue
+		}
+		n++
+		bad := ""
+		isPar := func(v Val) bool { return v.V == ssa.Value(par) }
+		w.enumPaths(fn, pathOpts{Inline: func(ssa.CallInstruction, *ssa.Function) bool { return false }}, func(p *Path) {
+			if p.Exit != "return" || len(p.Ret) != 1 || bad != "" {
+				return
+			}
+			rv := p.stripR(p.Ret[0])
+			switch {
+			case p.hasCmp(-1, token.EQL, isPar, isEmpty):
+				if rv.V == ssa.Value(par) || isEmpty(rv) {
+					bad = "an empty format is handed back unchanged"
+				}
+			case p.hasCmp(-1, token.NEQ, isPar, isEmpty):
+				if rv.V != ssa.Value(par) {
+					bad = "a non-empty format of the caller is replaced"
+				}
+			}
+		})
+		r.Check(bad == "", rule, "default format in "+fnShort(fn), w.pos(fn.Pos()), "the caller's format unless it is empty", bad)
+	}
+	r.Floor(rule, 1, "counters, percentage and speed constructors (or the helper that picks the default for them)")
 }
 
 // ruleNormalizerGuard (V-NORMGUARD, C20): the optional time normaliser of the ETA decorators is called
